@@ -716,7 +716,7 @@ fn main() {
     ck.assume("'within epsilon of the simplified outline' is the distance to the nearest segment of the whole simplified outline (closed for simplify_polygon)");
     ck.set_threads(16);
 
-    let n = ck.pick(150_000, 6_000_000);
+    let n = ck.pick(1_500_000, 12_000_000);
     // poly_algos.rs / shapes.rs / math.rs contain no unsafe code: a signal is
     // not a plausible outcome of hull / rectangle cases, and there are many
     ck.set_slots(false);
@@ -724,7 +724,7 @@ fn main() {
     ck.prop("min-area-rect", n, case, oracle_rect);
     // simplify_polyline is recursive: keep crash attribution (stack overflow)
     ck.set_slots(true);
-    ck.prop("simplify", n * 2 / 5, case, oracle_simplify);
+    ck.prop("simplify", n / 5, case, oracle_simplify);
     ck.set_slots(false);
 
     // every subset of a small integer grid (strict oracle), hull + rectangle
